@@ -159,3 +159,29 @@ harness_b!(k_builder_types, 5, builder::builder_types);
 
 harness_b!(k_probe_sel, 5, builder::builder_step_sel::<2, 1, 0, 1, 0, 1, 1>);
 harness_b!(k_probe_sel_g1, 5, builder::builder_step_sel::<2, 1, 0, 1, 1, 1, 1>);
+
+pub fn stub_random_state() -> std::collections::hash_map::RandomState {
+    // the hasher keys are irrelevant to the properties; the real constructor needs OS randomness (FFI)
+    unsafe { core::mem::transmute::<[u64; 2], std::collections::hash_map::RandomState>([1, 2]) }
+}
+
+macro_rules! harness_p {
+    ($name:ident, $n:expr, $unwind:expr, $call:expr) => {
+        #[kani::proof]
+        #[kani::unwind($unwind)]
+        #[kani::stub(std::fmt::format, stub_format)]
+        #[kani::stub(std::collections::hash_map::RandomState::new, stub_random_state)]
+        #[kani::stub(rspirv::grammar::CoreInstructionTable::get, stub_get)]
+        pub fn $name() {
+            let raw: [u8; $n] = kani::any();
+            let code: u32 = $call(&raw);
+            kani::cover!(code == 0, "scenario reaches a non-skipped end");
+            assert!(code <= 1, "scenario post-condition");
+        }
+    };
+}
+harness_p!(k_parse_header, misc::HDR_RAW, 8, misc::parse_header);
+harness_p!(k_string_pack, misc::STR_RAW, 30, misc::string_pack);
+harness_p!(k_words_view, misc::WORDS_RAW, 8, misc::words_view);
+harness_p!(k_parse_literal, misc::LIT_RAW, 10, misc::parse_literal);
+harness_p!(k_string_pack_small, misc::STR_RAW, 30, misc::string_pack_upto::<4>);
